@@ -27,6 +27,8 @@ def _gen_filters(rng, dump, stream_ids, tids, procs):
     f = {}
     if rng.chance(0.5):
         f['tid'] = rng.pick(tids + [12345]) if tids else 12345
+        if dump.get('lifecycle_tid') is not None and rng.chance(0.5):
+            f['tid'] = dump['lifecycle_tid']
     classes = sorted({i >> 24 for i in stream_ids})
     subs = sorted({i >> 16 for i in stream_ids})
     r = rng.random()
@@ -80,6 +82,14 @@ def generate(rng, index, tier):
             for t in d['writer'].get('tmap', []):
                 if t[0] == old:
                     t[0] = 0
+    for d in dumps:
+        if rng.chance(0.25):
+            # one thread logs the end of its life (terminate naming itself, then terminate-pid) and the id goes on being used
+            th = rng.pick(d['threads'])
+            th['ops'].insert(rng.randrange(max(1, len(th['ops']))), {'k': 'seq', 'ops': [
+                {'k': 'one', 'name': 'TRACE_DATA_THREAD_TERMINATE', 'q': 0, 'a': [th['tid'], th['tid'], 0, 0]},
+                {'k': 'one', 'name': 'TRACE_DATA_THREAD_TERMINATE_PID', 'q': 0, 'a': [77, rng.word(), 0, 0]}]})
+            d['lifecycle_tid'] = th['tid']
     hist = []
     for _ in range(rng.randint(2, 7)):
         di = rng.randrange(len(dumps))
